@@ -1496,7 +1496,7 @@ class ArgumentParser(ParserDeprecations, ActionsContainer, ArgumentLinking, argp
                     if not isinstance(value, (list, tuple)):
                         raise TypeError(f"Expected a list but got: {value!r}")
                     value = [action.type(v) for v in value]  # type: ignore[operator]  # (a new list: the given one is the caller's)
-            except (TypeError, ValueError) as ex:
+            except (TypeError, ValueError, argparse.ArgumentTypeError) as ex:
                 raise TypeError(f'Parser key "{key}": {ex}') from ex
         if not is_subcommand and action.choices:
             vals = value if _is_action_value_list(action) else [value]
